@@ -5,6 +5,7 @@
 //!   rvmc worker <ID> <tier> <lo> <hi> <idxfile>      (internal)
 
 mod c01;
+mod c03;
 mod c08;
 mod c17;
 mod driver;
@@ -12,6 +13,7 @@ mod exec;
 mod gen;
 mod imp;
 mod model;
+mod sched;
 mod xlate;
 
 use driver::*;
@@ -27,6 +29,7 @@ pub fn profile() -> &'static str {
 fn property(id: &str) -> Option<Box<dyn Property>> {
     Some(match id {
         "C01" => Box::new(c01::C01::new()),
+        "C03" => Box::new(c03::C03::new()),
         "C08" => Box::new(c08::C08::new()),
         "C17" => Box::new(c17::C17::new()),
         _ => return None,
